@@ -64,13 +64,13 @@ CLAIMED = {
          "generated. Exceptions escaping the read callback count as 'ignored'. Real broadcast delivery is outside.",
     technique="executable Gallina model + induction proofs + vm_compute correspondence + fnmatch differential"),
  "C20": dict(category="proof", design_ref="7 (C20)",
-    text="16 Coq theorems (all closed, unbounded, arbitrary upper/lower functions) on an executable model of the ADbasic parser analysis and the AdwinProcess accessors: binding one-to-one "
+    text="18 Coq theorems (all closed, unbounded, arbitrary upper/lower functions) on an executable model of the ADbasic parser analysis and the AdwinProcess accessors: binding one-to-one "
          "under case folding and equal to the recognised definitions; errors located at an offending definition and clashing definitions always rejected; _find_sequential_ranges = sorted "
          "dedup input in maximal disjoint ranges; set_par_multiple/get_par_multiple succeed iff the single accesses do, with equal register file/result and exactly the bound registers "
-         "touched once. Tie: generated ADbasic programs (include files in a scratch dir), symbol lists, range inputs and op sequences over a simulated ADwin through the real code, "
-         "compared on symbols, binding or (file,line), results, exact call log and registers; independent oracles.",
+         "touched once; a symbol occurring again later in the list (a file included more than once) changes neither the binding nor the reported error (analyze (dedup l) = analyze l). Tie: generated ADbasic programs (include files in a scratch dir, incl. the same literal include string reaching two different files, and circular includes under a watchdog), symbol lists, range inputs and op sequences over a simulated ADwin through the real code, "
+         "compared on what the property fixes: bindings and batch-read results as maps, rejections as (ParseException, file, line), symbol lists modulo repeated inclusion, per accessor call the sets of registers read and written plus final register contents; violation claims are judged against the definitions written into the generated program, not against the code's own scan; independent oracles.",
     note="Trusted: Coq kernel+vm_compute; hand model; harness (generator, FakeAdwin); CPython str.upper/lower on ASCII, re on 7 fixed patterns (modelled as scanners), os.path, int(). "
-         "ASCII identifiers, acyclic includes, values are opaque atoms.",
+         "ASCII identifiers, values are opaque atoms. Termination of the include traversal is not part of C20 (on circular include graphs either non-termination or the result on the acyclic unfolding is accepted); the same parameter requested under two spellings in one batch call is outside the property (only consistency of the returned keys is checked); effects of a failing batch call and order/grouping of driver calls are not compared.",
     technique="Coq invariant and induction proofs over symbol lists; correspondence by vm_compute with a simulated ADwin"),
  "C14": dict(category="proof", design_ref="7 (C14)",
     text="18 Coq theorems (all closed), incl. an explicit set of ALLOWED outcomes (Model.allowed): a repeated keyword may resolve to any ONE of the values the string gives or to the descriptor error; a non-strict form, a surplus field or a non-canonical number spelling may be the error; C14_allowed_faithful: every allowed Ok outcome is a transport of the dispatched class in which each parameter holds the typed value of one of the parts the string gives for it, else the caller default, else the constructor default, nothing outside the table; C14_allowed_tight: for strict, canonically written descriptors without a repeated keyword the set is the single pinned outcome; C14_allowed_has_pinned. The correspondence tests MEMBERSHIP of the observed outcome in the allowed set. The theorems are generic over every string, default dictionary, well-formed parser table and behaviour of int()/float()/host predicates: faithfulness of "
